@@ -95,6 +95,9 @@ SESSION_MEMBERS = {
     "file": [("write", "t/z.txt", None), ("write", "t/empty", None)],
     "dir": [("write", "t/emptydir", None)],
     "link": [("write", "t/link", None)],
+    # (C14 only) contents that look like the start of a header when they land where a header used to be: kHeader kEnd
+    "hdrlike": [("writestr", "n{n}.bin", b"\x01\x00" + bytes(2000))],
+    "tiny": [("writestr", "t{n}", b"x")],
 }
 
 
